@@ -1,9 +1,10 @@
 #!/bin/bash
 # bounded stand-in for check.ForZeroUintFields, run on the real code through an overlay
 set -e
+R="${VERIF_REPO:-/repo}"
 T=$(mktemp -d /tmp/bnd.XXXXXX)
-echo "{\"Replace\": {\"/repo/check/zz_bounded_ifzero_test.go\": \"/verif/replay/ifzero_bounded_test.go.txt\"}}" > $T/ov.json
-cd /repo && GOFLAGS=-mod=mod GOPROXY=off GOSUMDB=off GOTOOLCHAIN=local go test -v -overlay $T/ov.json -vet=off -count=1 -timeout 120s -run TestBoundedForZeroUintFields ./check/ 2>&1 | grep -v "^=== RUN" | tail -5
+echo "{\"Replace\": {\"$R/check/zz_bounded_ifzero_test.go\": \"/verif/replay/ifzero_bounded_test.go.txt\"}}" > $T/ov.json
+cd "$R" && GOFLAGS=-mod=mod GOPROXY=off GOSUMDB=off GOTOOLCHAIN=local go test -v -overlay $T/ov.json -vet=off -count=1 -timeout 120s -run TestBoundedForZeroUintFields ./check/ 2>&1 | grep -v "^=== RUN" | tail -5
 rc=${PIPESTATUS[0]}
 rm -rf $T
 exit $rc
